@@ -20,6 +20,7 @@ import PyIkev2.Proofs.TwoEnds
 import PyIkev2.Proofs.TwoEndsCreate
 import PyIkev2.Proofs.TwoEndsRekey
 import PyIkev2.Proofs.TwoEndsInit
+import PyIkev2.Proofs.TwoEndsCross
 
 namespace PyIkev2.Props.C09
 open PyIkev2 PyIkev2.Impl
@@ -489,5 +490,35 @@ example : exKids (initExchange 0 4 exC0 exAI exBI) = some ([([7,7,7,7], [8,8,8,8
 example : exStates (initExchange 0 4 exC0 exAI exBI) = some ([10, 10], [false, false]) := by decide +kernel
 example : (initExchange 0 4 exC0 exAI exBI).map (fun x => [x.1.me.core.peerSpi, x.2.me.core.peerSpi, [x.1.tape.vals.length, x.2.tape.vals.length]]) =
     some [[2,2,2,2,2,2,2,2], [1,1,1,1,1,1,1,1], [0, 0]] := by decide +kernel
+
+/-! ### two ends: CHILD_SA requests that cross -/
+
+/-- **crossing CHILD_SA requests** (two creations, two rekeys — of the same CHILD_SA: RFC 7296 2.25.1, both refused with
+    TEMPORARY_FAILURE — or of different ones, or one of each): each end handles the other's request while it waits for its own answer.
+    If no handler raises, neither answer calls for a further request, and each kernel accepted what its end installed: the ends agree —
+    every granted request added one CHILD_SA to both ends, every refused one none -/
+theorem c09_concrete_crossing_child_requests_keep_the_ends_agreed (now : Nat) (ca0 cb0 : Child) (rka rkb : Option Child)
+    (a b a3 b3 : HSt) (h : Agree a b)
+    (hpa : ca0.proposal.proto = 2 ∨ ca0.proposal.proto = 3) (hpb : cb0.proposal.proto = 2 ∨ cb0.proposal.proto = 3)
+    (hx : crossingChildExchange now ca0 cb0 rka rkb a b = some (a3, b3))
+    (hnda : (a3.me.ext.kids.map Child.inSpi).Nodup) (hndb : (b3.me.ext.kids.map Child.inSpi).Nodup) : Agree a3 b3 :=
+  crossingChildExchange_agree now ca0 cb0 rka rkb a b a3 b3 h hpa hpb hx hnda hndb
+
+/-- non-vacuity: two ACQUIREs that cross — two CHILD_SAs at each end, mirrored crosswise -/
+def exAX : HSt := { exA0 with tape := { vals := [.bytes [1], .bytes [3], .bytes [9,9,9,9], .num 0, .num 0] } }
+def exBX : HSt := { exB0 with tape := { vals := [.bytes [2], .bytes [4], .bytes [8,8,8,8], .num 0, .num 0] } }
+example : exKids (crossingChildExchange 0 exC0 exC1 none none exAX exBX) =
+    some ([([9,9,9,9], [6,6,6,6], 3), ([7,7,7,7], [8,8,8,8], 3)], [([8,8,8,8], [7,7,7,7], 3), ([6,6,6,6], [9,9,9,9], 3)]) := by
+  decide +kernel
+/-- … and two rekeys of the same CHILD_SA that cross: both refused, nothing changed, both ESTABLISHED again -/
+def exAY : HSt := { exA0 with tape := { vals := [.bytes [1], .num 0, .bytes [5]] } }
+def exBY : HSt := { exB0 with tape := { vals := [.bytes [2], .bytes [8,8,8,8], .num 0, .bytes [6]] } }
+def exCrossRekey : Option (HSt × HSt) :=
+  (opRun 0 4 (exAY, exBY) [.create true exC0]).bind fun x =>
+    match x.1.me.ext.kids, x.2.me.ext.kids with
+    | [ka], [kb] => crossingChildExchange 0 { exC0 with inSpi := [4,4,4,4] } exC1 (some ka) (some kb) x.1 x.2
+    | _, _ => none
+example : exKids exCrossRekey = some ([([7,7,7,7], [8,8,8,8], 3)], [([8,8,8,8], [7,7,7,7], 3)]) := by decide +kernel
+example : exStates exCrossRekey = some ([10, 10], [false, false]) := by decide +kernel
 
 end PyIkev2.Props.C09
